@@ -4,7 +4,8 @@ CONSTANTS NCells = 8
  CellBytes = 256
  Tails = {0, 17}
  Subs = {0, 16}
- Engines = {"otfad", "iee"}
+ Engines = {"otfad", "iee", "ieectr"}
+ Wraps = {0, 17, 64, 70, 127}
 SPECIFICATION Spec
 INVARIANT CellsPartition
 INVARIANT OwnerUnique
@@ -13,6 +14,11 @@ INVARIANT AddrOK
 INVARIANT ShrOK
 INVARIANT Finished
 INVARIANT CutsInside
+INVARIANT WrapRecomputed
+INVARIANT SettledExact
+INVARIANT NoWrapAllAsserted
+INVARIANT CutsIgnoreCounters
+INVARIANT CutBehindWrap
 INVARIANT WalkAligned
 INVARIANT WalkIeeExclusiveEnd
 CHECK_DEADLOCK FALSE
